@@ -159,7 +159,8 @@ func c16CSVRefs(c *Ctx, p *Prog) {
 		switch {
 		case readsLen && !stores:
 			readers = append(readers, af)
-		case readsLen && stores && hasIntParam && len(naturalLoops(af)) > 0:
+		case readsLen && stores && hasIntParam:
+			// pads the row up to the column given (by a loop of appends, or by appending the missing fields at once)
 			padders = append(padders, af)
 		}
 	}
